@@ -295,7 +295,12 @@ def f23_comment_blocks_slot_optimisation(case, bucket, detail):
         if kb != "teal" or ka != "teal":
             return False
         pa, pb = tp.parse(ta), tp.parse(tb)
-        skip = 2 if case["annotated"].get("nonce") else 0
+        skip = 0
+        if case["annotated"].get("nonce"):
+            # the nonce's `byte <nonce>; pop` follows the constant blocks when constants are assembled (same rule as c18.run_case)
+            first = [i for i in pa.instrs if i.op not in ("intcblock", "bytecblock")][:2]
+            if len(first) == 2 and first[1].op == "pop":
+                skip = pa.instrs.index(first[1]) + 1
         asm = bool(cfg.get("assemble"))
         if canon.layout_normal(pa, skip, values=asm) != canon.layout_normal(pb, 0, values=asm):
             return False
